@@ -4,6 +4,7 @@ import (
 	"math"
 	"strconv"
 
+	"github.com/koykov/bytebuf"
 	"github.com/koykov/byteconv"
 )
 
@@ -387,6 +388,12 @@ func floatConv(val any) (f float64, ok bool) {
 			f = f1
 		}
 	case *[]byte:
+		f1, err := strconv.ParseFloat(byteconv.B2S(*x), 64)
+		if ok = err == nil; ok {
+			f = f1
+		}
+	case *bytebuf.Chain:
+		// Text handed over by an earlier modifier of the chain (see Ctx.BufModOut).
 		f1, err := strconv.ParseFloat(byteconv.B2S(*x), 64)
 		if ok = err == nil; ok {
 			f = f1
